@@ -181,6 +181,9 @@ type Env struct {
 	Users func(uid int) avfs.UserReader
 	// LastTemp is the name produced by the last successful CreateTemp / MkdirTemp.
 	LastTemp string
+	// NoProbe: the executor itself calls no File method (no Stat after open, no offset probe),
+	// for checks that count or fail every primitive (FailFS).
+	NoProbe bool
 	// ErrPaths adds the Path / Old / New fields of PathError and LinkError to the result data.
 	ErrPaths bool
 }
@@ -377,14 +380,14 @@ func (e *Env) setHandle(h int, f avfs.File) {
 		return
 	}
 
-	if old := e.H[h]; old != nil && !isNilFile(old) {
+	if old := e.H[h]; old != nil && !isNilFile(old) && !e.NoProbe {
 		old.Close()
 	}
 
 	e.H[h] = f
 	e.IsDir[h] = false
 
-	if f != nil && !isNilFile(f) {
+	if f != nil && !isNilFile(f) && !e.NoProbe {
 		if st, err := f.Stat(); err == nil && st != nil {
 			e.IsDir[h] = st.IsDir()
 		}
@@ -626,7 +629,7 @@ func (e *Env) execFile(op Op) Result {
 
 	res := func(err error, data string) Result { return Result{Err: ErrClass(err), Data: data} }
 	probe := func() string {
-		if e.IsDir[op.H] {
+		if e.IsDir[op.H] || e.NoProbe {
 			return ""
 		}
 
